@@ -369,6 +369,30 @@ PROPS = {
                        dict(build="tsan", nshards=8, scale=0.25), dict(build="vg", nshards=8, scale=0.06, timeout=3400)),
         min_evaluations=300,
     ),
+    "C31": dict(
+        technique="the real quandaryd binary (built from /repo's working tree) runs as a child process on a loopback port "
+                  "with a generated TOML configuration; every step edits zone files (explicit strictly increasing mtimes) "
+                  "and/or the configuration, sends SIGHUP, waits until a sentinel zone whose SOA serial is the step number "
+                  "shows the reload is visible, then queries every zone over UDP; reference state machine per exact zone "
+                  "name {absent, failed-never-loaded, serving(version)}; versions are carried in the SOA serial",
+        rule="32 (quick) / 320 (thorough) daemon histories of 6-14 (quick) / 10-40 (thorough) reload steps over six "
+             "nested and unrelated zone names (z., sub.z., a.sub.z., b.z., other., deep.er.other.); per step each zone "
+             "with probability 0.3 gets a new file version (valid / syntax error / missing apex NS / file removed) and "
+             "with probability 0.2 is added to or removed from the configuration at a random position; after every load "
+             "every zone is queried for its SOA: serving(v) needs an authoritative SOA with serial v owned by the zone, "
+             "never-loaded needs SERVFAIL, absent needs the answer of the longest configured ancestor (REFUSED / "
+             "SERVFAIL / NXDOMAIN with the ancestor's current SOA). distinct = (zone, observed state class, initial "
+             "load or reload) classes; the thorough tier repeats part of the workload with quandaryd under valgrind memcheck",
+        assumptions=COMMON_ASSUMPTIONS + [
+            "mtime-based change detection is part of the daemon's contract: every rewritten file gets a strictly larger mtime",
+            "the configuration file itself is always valid; a reload that does not become visible within the poll budget "
+            "or a lost datagram makes the history inconclusive, never violated"],
+        quick=plans(dict(build="dbg", nshards=16)),
+        thorough=plans(dict(build="dbg", nshards=16), dict(build="rel", nshards=16),
+                       dict(build="dbg", nshards=8, scale=0.05, env={"QV_DAEMON_VALGRIND": "1"}, timeout=3400)),
+        min_evaluations=1000,
+        needs_daemon=True,
+    ),
     "C14": dict(
         technique="differential execution against an independent RFC 1035 §4.1.4 decoder; panic monitor; Miri/ASan on the same workload",
         rule="exhaustive: every buffer of length <= 5 over the 12 significant octets {0,1,2,3,63,64,0x80,0xbf,0xc0,0xc1,0xff,'a'} "
